@@ -175,8 +175,32 @@ def run_threaded(sc, max_rounds=120):
                 return True
             return False
 
+        def prelude(me):
+            """the calling thread has used streamz asynchronously before (asyncio.run(main()) in a script) and
+            an emit failed there: whatever that left behind in the thread must not change how the blocking
+            emits below behave"""
+            from streamz import Stream
+            from .fns import InjectedFailure
+
+            async def go():
+                s = Stream(asynchronous=True)
+
+                def bad(x):
+                    raise InjectedFailure(-1, 0)
+                k = s.map(bad).sink(lambda x: None)
+                try:
+                    await s.emit(1)
+                except InjectedFailure:
+                    rec.rec('prelude', 'raised')
+                else:
+                    rec.rec('prelude', 'no_exception')
+                k.destroy()
+            me.idle_loop.run_until_complete(go())
+
         def producer_body(pid, p):
             def body(me):
+                if sc.get('prelude_failed_emit'):
+                    prelude(me)
                 entry = p['entry']
                 src = ctx.nodes[entry]
                 me.sleep(p.get('start', 0) or 0)
